@@ -24,7 +24,7 @@ def plan(tier):
     q = tier == 'quick'
     items = [{'kind': 'smoothmag'}]
     b1 = ['near_sym_a', 'near_sym_b_bp', 'antonini'] if q else ['near_sym_a', 'near_sym_b', 'near_sym_b_bp', 'antonini', 'legall']
-    s1 = [(2, 2), (4, 4), (4, 6), (6, 4), (8, 8)] if q else [(2, 2), (4, 4), (4, 6), (6, 4), (8, 8), (6, 10), (12, 12), (5, 7)]
+    s1 = [(2, 2), (4, 4), (4, 6), (6, 4), (8, 8), (5, 4), (4, 7), (3, 3)] if q else [(2, 2), (4, 4), (4, 6), (6, 4), (8, 8), (6, 10), (12, 12), (5, 7)]
     for b in b1:
         for (h, w) in s1:
             for (colour, C) in ((False, 1), (False, 2), (True, 3)):
@@ -51,7 +51,7 @@ def bounds(tier):
 
 
 def required_regimes(tier):
-    return {'layer:1', 'layer:2', 'bp', 'colour', 'C:2', 'base:zero', 'base:const', 'base:sparse', 'base:dense', 'size:h!=w', 'smoothmag', 'smoothmag:only_y', 'mode:zero'}
+    return {'layer:1', 'layer:2', 'bp', 'colour', 'C:2', 'base:zero', 'base:const', 'base:sparse', 'base:dense', 'size:h!=w', 'smoothmag', 'smoothmag:only_y', 'mode:zero', 'input:noncontiguous', 'size:odd'}
 
 
 def _bases(C, H, W):
@@ -117,7 +117,7 @@ def run(item):
     from pytorch_wavelets import ScatLayer, ScatLayerj2
     layer, b, qs, H, W, colour, C, mb = (item[k] for k in ('layer', 'biort', 'qshift', 'h', 'w', 'colour', 'C', 'magbias'))
     tags = ['layer:%d' % layer] + (['bp'] if b.endswith('_bp') else []) + (['colour'] if colour else []) + (['C:2'] if C == 2 else []) + \
-        (['size:h!=w'] if H != W else []) + (['mode:zero'] if item.get('mode') == 'zero' else [])
+        (['size:h!=w'] if H != W else []) + (['size:odd'] if (H % 2 or W % 2) else []) + (['mode:zero'] if item.get('mode') == 'zero' else [])
     mod = ScatLayer(biort=b, magbias=mb, combine_colour=colour, mode=item.get('mode', 'symmetric')) if layer == 1 else ScatLayerj2(biort=b, qshift=qs, magbias=mb, combine_colour=colour)
     P = C * H * W
     res.state(common.sha(item))
@@ -127,6 +127,7 @@ def run(item):
             Z = mod(torch.as_tensor(V.reshape(-1, C, H, W)))
         return Z.reshape(Z.shape[0], -1).numpy()
 
+    done = set()
     for kind, x0 in _bases(C, H, W):
         cfg = dict(item, base_kind=kind, base_nonzeros=[[int(i), float(x0[i])] for i in np.flatnonzero(x0)[:3]] + ([['...', int(np.count_nonzero(x0))]] if np.count_nonzero(x0) > 3 else []))
         del cfg['kind']
@@ -145,6 +146,19 @@ def run(item):
                 X = torch.as_tensor(np.repeat(x0[None, :], n, axis=0).reshape(n, C, H, W)).clone().requires_grad_(True)
                 Z = mod(X)
                 cot = torch.zeros(Z.shape, dtype=Z.dtype)
+                if kind == 'base:dense' and r0 == 0 and 'noncontig' not in done:
+                    # the same base point as a non-contiguous (NHWC-permuted) tensor that requires grad: same gradient
+                    done.add('noncontig')
+                    Xn = X.detach()[:1].permute(0, 2, 3, 1).contiguous().permute(0, 3, 1, 2).requires_grad_(True)
+                    Zn = mod(Xn)
+                    cn = torch.as_tensor(np.cos(0.3 * np.arange(Zn.numel())).reshape(Zn.shape))
+                    (gn,) = torch.autograd.grad([Zn], [Xn], grad_outputs=[cn])
+                    Xc = X.detach()[:1].clone().requires_grad_(True)
+                    (gc,) = torch.autograd.grad([mod(Xc)], [Xc], grad_outputs=[cn])
+                    res.regime('input:noncontiguous')
+                    res['evals'] += 1
+                    if float((gn - gc).abs().max()) > 1e-9 * max(1.0, float(gc.abs().max())):
+                        res.violation('scat_gradient', dict(cfg, input_layout='nhwc_permuted'), {'kind': 'value', 'maxdev': float((gn - gc).abs().max())}, tags)
                 cot.reshape(n, -1)[torch.arange(n), torch.arange(r0, r0 + n)] = 1.0
                 (g,) = torch.autograd.grad([Z], [X], grad_outputs=[cot])
                 G[:, r0:r0 + n] = g.reshape(n, -1).numpy().T
